@@ -335,6 +335,70 @@ func (v *vfC14Totp) attempt(f []string) string {
 	return fmt.Sprintf("%s %s %s %d %d %d%s", vfBool(ret), vfBool(gate), vfBool(frec), after.failCount, lock, lfAge, slow)
 }
 
+// catt <user> <gap_s> <counter> <n>: n goroutines submit the right code at the same moment
+func (v *vfC14Totp) concurrent(f []string) string {
+	gap, e1 := strconv.ParseInt(f[2], 10, 64)
+	counter, e2 := strconv.ParseInt(f[3], 10, 64)
+	n, e3 := strconv.Atoi(f[4])
+	if e1 != nil || e2 != nil || e3 != nil || gap < 0 || n < 1 {
+		return "bad-op"
+	}
+	u := v.user(f[1])
+	full := v.prefix + f[1]
+	code := u.code("good")
+	began := time.Now()
+	realNow := v.advance(gap)
+	before := v.snapshot(full)
+	var wg sync.WaitGroup
+	var mu sync.Mutex
+	trues, errs := 0, 0
+	startGate := make(chan struct{})
+	for i := 0; i < n; i++ {
+		wg.Add(1)
+		go func() {
+			defer wg.Done()
+			defer func() {
+				if p := recover(); p != nil {
+					mu.Lock()
+					errs++
+					mu.Unlock()
+				}
+			}()
+			<-startGate
+			ok, err := v.state.validateUserTOTP(full, code, time.Unix(counter*30+1, 0))
+			mu.Lock()
+			if err != nil {
+				errs++
+			} else if ok {
+				trues++
+			}
+			mu.Unlock()
+		}()
+	}
+	close(startGate)
+	wg.Wait()
+	if errs > 0 {
+		return "err"
+	}
+	after := v.snapshot(full)
+	took := time.Since(began)
+	gate := !after.lastCheckTime.Equal(before.lastCheckTime)
+	frec := !after.lastFailTime.Equal(before.lastFailTime)
+	lock := int64(0)
+	if after.lockoutExpirationTime.After(realNow) {
+		lock = vfRoundSecs(after.lockoutExpirationTime.Sub(realNow))
+	}
+	lfAge := int64(-1)
+	if !after.lastFailTime.IsZero() {
+		lfAge = vfRoundSecs(realNow.Sub(after.lastFailTime))
+	}
+	slow := ""
+	if took > 300*time.Millisecond {
+		slow = " slow"
+	}
+	return fmt.Sprintf("%d %s %s %d %d %d%s", trues, vfBool(gate), vfBool(frec), after.failCount, lock, lfAge, slow)
+}
+
 func TestVerifC14(t *testing.T) {
 	io := vfOpen(t)
 	defer io.close()
@@ -380,6 +444,8 @@ func TestVerifC14(t *testing.T) {
 			io.emit("seq")
 		case len(f) == 5 && (f[0] == "att" || f[0] == "hatt"):
 			io.emit("%s", tv.attempt(f))
+		case len(f) == 5 && f[0] == "catt":
+			io.emit("%s", tv.concurrent(f))
 		default:
 			io.emit("bad-op")
 		}
